@@ -553,10 +553,14 @@ def judge_add(ctx, work, cases, escape_exe):
             if ex_i == ex_m and len(ex_i) == 1:
                 n_outside[0] += 1
                 continue
-            hits.append({"engine": ENGINE, "clause": "C17.cli_unit", "known_class": None, "input": case_input(c),
-                         "observed": {"unit_file": bytes.fromhex(m.group(4)).decode("utf-8", "backslashreplace")},
-                         "expected": {"unit_file": bytes.fromhex(m.group(5)).decode("utf-8", "backslashreplace")},
-                         "note": "extracted text_class_ok is false on the installed unit: [Service] does not hold exactly one ExecStart= whose value ends, byte for byte, with the model's text from the exclude region on (for exactly the patterns of the command line) after an intact prefix"})
+            # the installed text is not the MODEL's text for these patterns: that breaks the correspondence with Escape.v
+            # (class TEXT), it is not by itself a failure of C17 - whether systemd still reads the user's patterns out of
+            # it is what the MONITOR line (c17_check) of the same case says
+            stats.setdefault("_text_diffs", []).append(
+                {"engine": ENGINE, "class": "TEXT", "input": case_input(c),
+                 "impl": {"unit_file": bytes.fromhex(m.group(4)).decode("utf-8", "backslashreplace")},
+                 "model": {"unit_file": bytes.fromhex(m.group(5)).decode("utf-8", "backslashreplace")},
+                 "note": "extracted text_class_ok is false on the installed unit: the exclude region of its ExecStart= is not, byte for byte, the model's text for the patterns of the command line"})
             continue
         m = re.match(r"MONITOR id=(\d+) tag=\S+ clause=(\S+) pats=(\S*) env=(\S+) observed=(.*?) text=(\S+)$", line)
         if m:
@@ -1063,7 +1067,9 @@ def run(ctx):
             "cli_seconds": {"real_binary_build_or_lookup": round(t_build, 1), "add_systemd_service": round(t_add, 1), "remap": round(t_remap, 1)},
             "samples": samples,
         })
-        res.update({"ok": True, "hits": trim(hits, 10) + trim(rhits, 10), "stats": stats})
+        tdiffs = stats.pop("_text_diffs", [])
+        stats["cli_unit_texts_differing_from_the_model_in_the_exclude_region"] = len(tdiffs)
+        res.update({"ok": True, "diffs": tdiffs[:10], "hits": trim(hits, 10) + trim(rhits, 10), "stats": stats})
         res["wall_s"] = round(time.time() - t0, 1)
         shutil.rmtree(work, ignore_errors=True)
         os.makedirs(cdir, exist_ok=True)
